@@ -166,13 +166,16 @@ Variable store : ident -> lookup.
 Variable async_store : bool.
 
 Definition kevo (k : state -> res) : Prop := forall s, evo s (st (k s)).
+Lemma regauge_evo q i s : evo s (regauge q i s).
+Proof. apply evo_conns; [reflexivity|]. intros q'. cbn. repeat split; auto. exists []. reflexivity. Qed.
 
 Lemma authenticate_evo k q i dg l s : kevo k -> evo s (st (authenticate k q i dg l s)).
 Proof.
   intros Hk. unfold authenticate. destruct l as [|r]; [cbn; apply bad_evo|].
   destruct (bytes_eqb _ _); [|cbn; apply bad_evo].
   match goal with |- context [k ?X] => assert (E1 : evo s X) end.
-  { eapply evo_trans; [|apply logA_evo; intros; discriminate]. apply modc_evo. intros c. cbn. repeat split; auto; ex_nil. }
+  { eapply evo_trans; [apply (regauge_evo q i)|]. eapply evo_trans; [|apply logA_evo; intros; discriminate].
+    apply modc_evo. intros c. cbn. repeat split; auto; ex_nil. }
   match goal with |- context [k ?X] => pose proof (Hk X) as E2; destruct (k X) end; cbn in *.
   - eapply evo_trans; [exact E1|]. destruct (pending _); [eapply evo_trans; [exact E2|apply resume_r_evo]|exact E2].
   - eapply evo_trans; eassumption.
